@@ -11,8 +11,8 @@ for f in "" "--no-default-features --features mmap" "--no-default-features --fea
   cargo build --offline $f >/dev/null 2>&1 || { echo "BUILD-FAIL $f"; ok=0; }
 done
 cargo test --offline --lib 2>&1 | grep -E "^test result" | head -1
-cargo test --offline --test seeded_demo >/tmp/seed_with.log 2>&1; rc_with=$?
+cargo test --offline $DEMO_FEATURES --test seeded_demo >/tmp/seed_with.log 2>&1; rc_with=$?
 git checkout -q -- src
-cargo test --offline --test seeded_demo >/tmp/seed_without.log 2>&1; rc_without=$?
+cargo test --offline $DEMO_FEATURES --test seeded_demo >/tmp/seed_without.log 2>&1; rc_without=$?
 git apply SEEDED/patch.diff
 echo "demo_with_patch_rc=$rc_with demo_without_patch_rc=$rc_without builds_ok=$ok"
